@@ -73,20 +73,34 @@ def run_start_case(case):
     d = tempfile.mkdtemp(prefix='c12-')
     try:
         # G.Cli (a list) may carry the shape of the working directory: rws.config.toml as a symbolic link
-        # (`link`: target path relative to the working directory, or 'abs'), other files next to it (`decoys`)
+        # (`link`: target path relative to the working directory, or 'abs'), other files next to it (`decoys`),
+        # the working directory itself as a sub-directory with an odd name (`subdir`), rws.config.toml as something
+        # that is no regular file (`kind`)
         link, decoys = getattr(cli, 'link', None), getattr(cli, 'decoys', {})
+        subdir, kind = getattr(cli, 'subdir', None), getattr(cli, 'kind', None)
+        wd = d
+        if subdir:
+            wd = os.path.join(os.fsencode(d), subdir) if isinstance(subdir, bytes) else os.path.join(d, subdir)
+            os.makedirs(wd, exist_ok=True)
+        J = lambda name: os.path.join(wd, os.fsencode(name) if isinstance(wd, bytes) else name)
         for name, content in decoys.items():
-            os.makedirs(os.path.dirname(os.path.join(d, name)), exist_ok=True)
-            with open(os.path.join(d, name), 'wb') as fh: fh.write(b(content))
-        if file is not None:
+            os.makedirs(os.path.dirname(J(name)), exist_ok=True)
+            with open(J(name), 'wb') as fh: fh.write(b(content))
+        if kind == 'dir':
+            os.makedirs(J('rws.config.toml'))
+            with open(J('rws.config.toml/rws.config.toml'), 'wb') as fh: fh.write(b'port = 1\n[cors]\nmax_age = 1\n')
+        elif kind == 'dangling': os.symlink('missing.toml', J('rws.config.toml'))
+        elif kind == 'loop': os.symlink('rws.config.toml', J('rws.config.toml'))
+        elif kind == 'fifo': os.mkfifo(J('rws.config.toml'))
+        if file is not None and not kind:
             real = 'rws.config.toml' if not link else 'elsewhere/settings.toml' if link == 'abs' else link
-            os.makedirs(os.path.dirname(os.path.join(d, real)), exist_ok=True)
-            with open(os.path.join(d, real), 'wb') as fh: fh.write(b(file))
-            if link: os.symlink(os.path.join(d, real) if link == 'abs' else real, os.path.join(d, 'rws.config.toml'))
+            os.makedirs(os.path.dirname(J(real)), exist_ok=True)
+            with open(J(real), 'wb') as fh: fh.write(b(file))
+            if link: os.symlink(J(real) if link == 'abs' else real, J('rws.config.toml'))
         e = {b(k): b(v) for k, v in env}
         try:
-            p = subprocess.run([b(x) for x in ARGV0 + list(cli)], cwd=d, env=e, stdout=subprocess.PIPE,
-                               stderr=subprocess.DEVNULL, timeout=60)
+            p = subprocess.run([b(x) for x in ARGV0 + list(cli)], cwd=wd, env=e, stdout=subprocess.PIPE,
+                               stderr=subprocess.DEVNULL, timeout=(8 if kind == 'fifo' else 60))
         except subprocess.TimeoutExpired:
             return 'abort timeout'
         for ln in reversed(p.stdout.decode('utf-8', 'replace').split('\n')):
@@ -282,6 +296,8 @@ def run(res, tier, seed):
     S.append(('x tab and crlf', ([], 'port\t=\t1\r\nip = 2 \t# c\r\nthread_count=3\r', []), None, False))
     # A6 classes added by the generator audit (vlib/gen_c12.py, audit/C12/AUDIT.md): own PRNG stream, so A1-A5 stay as they were
     S += G.start_cases(sys.modules[__name__], C.Rng(seed).fork('C12 gen-start'), quick)
+    # A7 second audit pass (audit/C12/AUDIT2.md): relations inside one configuration - again an own PRNG stream
+    S += G.start_cases2(sys.modules[__name__], C.Rng(seed).fork('C12 gen2-start'), quick)
 
     start_lines = [line_start(*c[1]) for c in S]
     import threading
@@ -411,6 +427,8 @@ def run(res, tier, seed):
         add('cfgget', [enc_env([(var, n)])], 'x get random')
     # B5 classes added by the generator audit (vlib/gen_c12.py)
     for op, fields, kind, payload in G.stage_cases(sys.modules[__name__], C.Rng(seed).fork('C12 gen-stage'), quick): add(op, fields, kind, payload)
+    # B6 second audit pass: the same relations stage by stage, and HISTORIES (the call after a long / short / failing / empty one)
+    for op, fields, kind, payload in G.stage_cases2(sys.modules[__name__], C.Rng(seed).fork('C12 gen2-stage'), quick): add(op, fields, kind, payload)
 
     impl, model = C.run_both(lines)
     C.compare(res, lines, impl, model, 'config stages', nontrivial=lambda ln, a: not ln.endswith(' - -'))
@@ -457,7 +475,14 @@ def run(res, tier, seed):
                 'sources, the documented default or the empty text written by the higher source, special / punctuation / multi-byte / long '
                 'values through every source, near-miss variable names, flags and keys, both flag forms together, long command lines, files '
                 'with unrelated keys and tables around [cors], blanks inside the table brackets, triple quotes, mixed quotes, a line end per '
-                'line, settings behind 4 KiB - 1 MiB of comments, rws.config.toml as a symbolic link, similarly named files' % n_combo)
+                'line, settings behind 4 KiB - 1 MiB of comments, rws.config.toml as a symbolic link, similarly named files; '
+                'second audit pass (audit/C12/AUDIT2.md): a multi-byte character across every byte offset of a value, typical values alone '
+                'and in the pairs a cross-setting validation would couple, equal texts in several settings / sources, documented key names '
+                'in foreign tables and at the wrong level, the settings behind many other entries, tiny files, every setting on a line across '
+                'a power-of-two byte offset, odd working directories, rws.config.toml that is no regular file, unrelated variables that are not '
+                'Unicode, a flag word without `=` in front of a documented word, Unicode white space inside a value, texts a case folding / '
+                'normalisation / escape processing / interpolation would change, near-miss flags under case folding, and in-process histories '
+                '(the call after a long, a short, an empty and a failing one; twins of equal length)' % n_combo)
     res.sample({'op': start_lines[5][:160], 'case': repr(S[5][1])[:200], 'implementation': impl_s[5][:120] + '…', 'model': model_s[5][:120] + '…'})
     k = next(i for i, mm in enumerate(meta) if mm[0] == 'file')
     res.sample({'op': lines[k][:120] + '…', 'file': meta[k][1][2][:300], 'implementation': impl[k][:200] + '…'})
